@@ -45,7 +45,8 @@ def main(argv: list[str] | None = None) -> int:
                   f"(+{selftest.get('killed_other_rule', 0)} by another rule), missed={selftest.get('missed', [])}, "
                   f"twins silent {selftest.get('twins_silent', 0)}/{selftest.get('twins', 0)}, stale={selftest.get('stale', [])}")
             c = selftest.get("corpus", {})
-            print(f"corpus replay: refactorings silent {c.get('refactorings_silent')}/{c.get('refactorings')} (alarms: {[r['name'] for r in c.get('refactoring_alarms', [])]}); "
+            print(f"corpus replay on the current tree: refactorings silent {c.get('refactorings_silent')}/{c.get('refactorings')} (alarms: {[r['name'] for r in c.get('refactoring_alarms', [])]}; "
+                  f"{len(c.get('refactorings_for_an_earlier_tree', []))} written for an earlier tree, replayed there by tools/harness.py); "
                   f"seeded changes for {prop}: reported by this check {c.get('seeded_reported_by_this_check')}, not by this check {c.get('seeded_not_reported_by_this_check')}")
         return finish(ctx, t0=t0, explanation=mod.EXPLANATION, trusted=mod.TRUSTED, declined=mod.DECLINED,
                       extra={"technique": getattr(mod, "TECHNIQUE", "static analysis"), **getattr(mod, "extra_evidence", lambda c: {})(ctx)}, selftest=selftest, write=not a.no_write)
